@@ -37,7 +37,7 @@ func (w *World) translate(fn *ssa.Function, c *Contract) (vc *VC, err error) {
 	t := &Tr{w: w, fn: fn, c: c, vc: vc, pkg: pkgPathOf(fn),
 		vals: map[ssa.Value]Term{}, tuples: map[ssa.Value][]Term{}, addrs: map[ssa.Value]*Addr{}, clos: map[ssa.Value]*ssa.MakeClosure{},
 		reach: map[*ssa.BasicBlock]string{}, out: map[*ssa.BasicBlock]*State{}, outReach: map[*ssa.BasicBlock]string{}, edgeC: map[[2]*ssa.BasicBlock]string{},
-		loops: map[*ssa.BasicBlock]*loopInfo{}, backEdge: map[[2]*ssa.BasicBlock]bool{}, posts: map[int][]string{}, kindCount: map[string]int{},
+		loops: map[*ssa.BasicBlock]*loopInfo{}, backEdge: map[[2]*ssa.BasicBlock]bool{}, posts: map[int][]Cl{}, kindCount: map[string]int{},
 		paramEnv: map[string]Val{}, debugVals: map[string][]ssa.Value{}, rangeIt: map[ssa.Value]*rangeState{}}
 	defer func() {
 		if r := recover(); r != nil {
@@ -81,6 +81,9 @@ func (w *World) translate(fn *ssa.Function, c *Contract) (vc *VC, err error) {
 		x := Term{t.fresh("fv_"+mangle(p.Name()), s), s}
 		t.vals[p] = x
 		t.assumeTyped(x, p.Type())
+		if _, isPtr := p.Type().Underlying().(*types.Pointer); isPtr {
+			t.assumeRaw(fmt.Sprintf("(not (= %s 0))", x.S))
+		}
 		// a free variable is a pointer to the captured variable's cell
 		t.paramEnv["&"+p.Name()] = Val{T: x, Ty: p.Type()}
 	}
@@ -100,22 +103,22 @@ func (w *World) translate(fn *ssa.Function, c *Contract) (vc *VC, err error) {
 			continue
 		}
 		env := t.envAt(nil)
-		s, e := env.evalBool(gi.E)
+		s, e := env.evalClause(gi.E)
 		if e != nil {
 			return nil, fmt.Errorf("%s:%d: globalinv: %v", gi.File, gi.Line, e)
 		}
-		t.assumeRaw(s)
+		t.assumeCl(s, true)
 		vc.Trusted["globalinv "+gi.Src] = true
 	}
 	t.entry = t.cur.clone()
 	if c != nil {
 		for i, r := range c.Requires {
 			env := t.envAt(nil)
-			s, e := env.evalBool(r.E)
+			s, e := env.evalClause(r.E)
 			if e != nil {
 				return nil, fmt.Errorf("%s:%d: requires#%d: %v", r.File, r.Line, i, e)
 			}
-			t.assumeRaw(s)
+			t.assumeCl(s, true)
 		}
 		vc.Items = append(vc.Items, Item{Kind: itOblig, Text: "true", Name: "vacuity/requires", Expect: "sat", Src: "preconditions are satisfiable"})
 		// dry evaluation of ensures to register the heaps they mention
@@ -124,7 +127,7 @@ func (w *World) translate(fn *ssa.Function, c *Contract) (vc *VC, err error) {
 			env := t.envAt(nil)
 			env.old = t.entry
 			t.bindDummyResults(env)
-			if _, e := env.evalBool(en.E); e != nil {
+			if _, e := env.evalClause(en.E); e != nil {
 				return nil, fmt.Errorf("%s:%d: ensures#%d: %v", en.File, en.Line, i, e)
 			}
 		}
@@ -142,8 +145,24 @@ func (w *World) translate(fn *ssa.Function, c *Contract) (vc *VC, err error) {
 			if len(fs) == 0 {
 				continue
 			}
-			vc.Items = append(vc.Items, Item{Kind: itOblig, Text: mkAnd(fs...), Name: fmt.Sprintf("post#%d", i), Src: "ensures " + en.Src, Pos: fmt.Sprintf("%s:%d", shortPath(en.File), en.Line)})
+			var qs, us []string
+			for _, f := range fs {
+				qs = append(qs, f.Q)
+				us = append(us, f.U)
+			}
+			it := Item{Kind: itOblig, Text: mkAnd(qs...), Name: fmt.Sprintf("post#%d", i), Src: "ensures " + en.Src, Pos: fmt.Sprintf("%s:%d", shortPath(en.File), en.Line)}
+			if u := mkAnd(us...); u != it.Text {
+				it.AltU = u
+			}
+			vc.Items = append(vc.Items, it)
 			vc.NOblig++
+			// an established postcondition may serve as a lemma for the later ones
+			// (sound: the conjunction of all of them is what is claimed)
+			as := Item{Kind: itAssume, Text: fmt.Sprintf("(assert %s)", it.Text)}
+			if it.AltU != "" {
+				as.AltU = fmt.Sprintf("(assert %s)", it.AltU)
+			}
+			vc.Items = append(vc.Items, as)
 		}
 		for i, f := range t.frameOb {
 			vc.Items = append(vc.Items, Item{Kind: itOblig, Text: f, Name: fmt.Sprintf("frame#%d", i), Src: "modifies clause respected"})
@@ -546,11 +565,11 @@ func (t *Tr) loopHeader(li *loopInfo) {
 	if li.lc != nil {
 		env := t.loopEnv(li, entryPhis, h)
 		for k, inv := range li.lc.Invariants {
-			s, err := env.evalBool(inv.E)
+			s, err := env.evalClause(inv.E)
 			if err != nil {
 				efail("%s:%d: loop %d invariant#%d: %v", inv.File, inv.Line, li.ord, k, err)
 			}
-			t.check(fmt.Sprintf("loop%d/init#%d", li.ord, k), s, "invariant "+inv.Src+" holds on entry", pos)
+			t.checkCl(fmt.Sprintf("loop%d/init#%d", li.ord, k), s, "invariant "+inv.Src+" holds on entry", pos)
 		}
 	}
 	// havoc
@@ -577,11 +596,11 @@ func (t *Tr) loopHeader(li *loopInfo) {
 	if li.lc != nil {
 		env := t.loopEnv(li, cur, h)
 		for _, inv := range li.lc.Invariants {
-			s, err := env.evalBool(inv.E)
+			s, err := env.evalClause(inv.E)
 			if err != nil {
 				efail("%s:%d: loop %d invariant: %v", inv.File, inv.Line, li.ord, err)
 			}
-			t.assume(s)
+			t.assumeCl(s, false)
 		}
 		if li.lc.Decreases != nil {
 			v, err := env.evalAny(li.lc.Decreases.E)
@@ -627,11 +646,11 @@ func (t *Tr) loopBack(li *loopInfo, from *ssa.BasicBlock) {
 		pos = from.Instrs[len(from.Instrs)-1].Pos()
 	}
 	for k, inv := range li.lc.Invariants {
-		s, err := env.evalBool(inv.E)
+		s, err := env.evalClause(inv.E)
 		if err != nil {
 			efail("%s:%d: loop %d invariant#%d: %v", inv.File, inv.Line, li.ord, k, err)
 		}
-		t.check(fmt.Sprintf("loop%d/preserve#%d", li.ord, k), s, "invariant "+inv.Src+" is preserved", pos)
+		t.checkCl(fmt.Sprintf("loop%d/preserve#%d", li.ord, k), s, "invariant "+inv.Src+" is preserved", pos)
 	}
 	if li.lc.Decreases != nil {
 		v, err := env.evalAny(li.lc.Decreases.E)
